@@ -8,6 +8,7 @@ from .. import bits, fields
 from ..core import call_attr, calls_in, const, dotted, is_const, kwarg, norm, slice_parts, text, walk_local
 
 EXPLANATION = [
+    'C01.family-registries: every sub-event family (LE Meta, vendor) owns its dispatch table, so an unknown sub-event of one family can never be parsed as a class of another; every from_parameters factory that rebuilds an object from its fields also keeps the received parameter bytes.',
     'C01.codec-arms: HCI_Object.parse_field and serialize_field are sibling `match` tables over the same spec literals; per literal the '
     'struct format, width, signedness and endianness agree and the consumed size equals the produced size; the length-prefixed and '
     'repeated-group codecs agree on one count/length byte.',
@@ -491,7 +492,47 @@ def frames(ctx):
     R.floor(rule, 25, 'frame obligations')
 
 
+
+def family_registries(ctx):
+    """Each family of sub-events dispatches through its own table; parsed events keep the bytes they were parsed from."""
+    R, p = ctx.r, ctx.wide if False else ctx.p
+    rule = 'C01.family-registries'
+    base = p.cls(f'{H}.HCI_Extended_Event')
+    if base is None:
+        R.bad(rule, f'{H}.HCI_Extended_Event', 'anchor missing')
+        return
+    # family roots: direct subclasses of HCI_Extended_Event that have subclasses of their own (in bumble/)
+    roots = [c for c in p.subclasses(base.qual, transitive=False) if p.subclasses(c.qual, transitive=False)]
+    for c in roots:
+        own = 'subevent_classes' in c.assigns and isinstance(c.assigns['subevent_classes'], ast.Dict)
+        R.check(own, rule, f'{c.qual} | own sub-event table', 'defines its own `subevent_classes = {}`',
+                f'{c.name} does not define its own sub-event table: it shares HCI_Extended_Event.subevent_classes with every other family, so a sub-event code registered by another family (e.g. a vendor event) is parsed as that foreign class instead of being kept as an unknown event with its raw parameters', p.loc(c.node))
+    R.check(len(roots) >= 2, rule, f'{H} | sub-event families', f'{len(roots)} families with their own dispatch table', f'only {len(roots)} sub-event families found')
+    # factories keep the received bytes
+    n = 0
+    hm = p.modules.get(H)
+    for c in hm_classes(p, hm):
+        fp = c.methods.get('from_parameters')
+        if fp is None:
+            continue
+        built = [n_ for n_ in walk_local(fp) if isinstance(n_, ast.Assign) and isinstance(n_.value, ast.Call) and dotted(n_.value.func) == 'cls' and any(k.arg is None and 'dict_from_bytes' in norm(k.value) for k in n_.value.keywords)]
+        if not built:
+            continue
+        n += 1
+        var = dotted(built[0].targets[0])
+        prm = fp.args.args[1].arg
+        keeps = any(isinstance(n_, ast.Assign) and dotted(n_.targets[0]) == f'{var}.parameters' and norm(n_.value) == prm for n_ in walk_local(fp))
+        R.check(keeps, rule, f'{c.qual}.from_parameters | keeps the received bytes', f'{var}.parameters = {prm}: a parsed packet re-serialises to the bytes it came from',
+                f'{c.name}.from_parameters rebuilds the object from its fields but drops the received parameter bytes: whatever the fields do not capture (trailing return parameters of a failed command, reserved bits) is lost when the packet is serialised again', p.loc(fp))
+    R.check(n >= 3, rule, f'{H} | field-built factories', f'{n} from_parameters factories built from dict_from_bytes', f'only {n} such factories found')
+
+
+def hm_classes(p, hm):
+    return [c for q, c in p.classes.items() if c.module is hm]
+
+
 RULES = [
+    ('C01.family-registries', family_registries),
     ('C01.codec-arms', codec_arms),
     ('C01.enum-spec', enum_spec),
     ('C01.fields', hci_fields),
